@@ -375,6 +375,13 @@ theorem step_inv (s : State) (e : Ev) (h : Inv s) : Inv (step s e) := by
     intro q
     exact pcInv_env s _ q _ rfl rfl (Nat.le_succ _)
       (fun v hv => upd_other _ _ _ _ (by omega)) ⟨rfl, rfl⟩ (h.pcs q)
+  | replace m =>
+    simp only [step]
+    refine ⟨h.sameDevice, h.entry, fun i hi => Nat.le_succ_of_le (h.dataLe i hi),
+      fun q hq => Nat.le_succ_of_le (h.procData q hq), ?_⟩
+    intro q
+    exact pcInv_env s _ q _ rfl rfl (Nat.le_succ _)
+      (fun v hv => upd_other _ _ _ _ (by omega)) ⟨rfl, rfl⟩ (h.pcs q)
   | tick =>
     simp only [step]
     refine ⟨h.sameDevice, h.entry, h.dataLe, h.procData, ?_⟩
@@ -553,6 +560,7 @@ theorem step_invF (s : State) (e : Ev) (h : Inv s) (hf : InvF s) (ok : evOK s e 
       · have e2 : (s.inodes i).data + 1 ≠ s.ver + 1 := by omega
         simp only [upd_other _ _ _ _ e2]
         exact hf.fresh i hi hl (by omega)
+  | replace m => simp [evOK] at ok
   | tick =>
     simp only [step]
     exact ⟨fun i hi => Nat.le_succ_of_le (hf.inoClock i hi), hf.mono, Nat.le_succ_of_le hf.srcClock,
@@ -585,6 +593,7 @@ theorem histOK_of (s : State) (evs : List Ev) (h1 : histNoModDuringStore s evs =
     | spawn p op sv => simp only [histFineClock] at h2; simp [histOK, evOK, ih _ h1.2 h2]
     | crash p => simp only [histFineClock] at h2; simp [histOK, evOK, ih _ h1.2 h2]
     | tick => simp only [histFineClock] at h2; simp [histOK, evOK, ih _ h1.2 h2]
+    | replace m => simp [histFineClock] at h2
 
 /-- initial states for the freshness theorem: additionally timestamps are not from the
     future and a complete initial entry is not a stale parse that looks fresh -/
@@ -620,6 +629,7 @@ theorem step_entry_env (s : State) (e : Ev) (h : ∀ p, e ≠ .step p) : (step s
   | spawn p op sv => simp only [step]; split <;> rfl
   | crash p => simp only [step]; split <;> rfl
   | modify t => rfl
+  | replace m => rfl
   | tick => rfl
 
 /-- the cache directory never holds a torn entry (unless it started with one) -/
@@ -649,6 +659,7 @@ theorem step_invC (s : State) (e : Ev) (h : Inv s) (hc : InvC s) : InvC (step s 
   | spawn p op sv => simp only [step]; split <;> exact hc
   | crash p => simp only [step]; split <;> exact hc
   | modify t => exact hc
+  | replace m => exact hc
   | tick => exact hc
 
 theorem run_invC (s : State) (evs : List Ev) (h : Inv s) (hc : InvC s) : InvC (run s evs) := by
@@ -743,6 +754,7 @@ theorem step_invP (V : Nat) (Q : Nat → Prop) (s : State) (e : Ev) (h : Inv s) 
       · simp only [State.setPc, upd_other _ _ _ _ e]; exact heldV_env s _ V _ rfl (hP.held q hq)
     · exact hP
   | modify t => exact ⟨hP.entryV, fun q hq => heldV_env s _ V _ rfl (hP.held q hq)⟩
+  | replace m => exact ⟨hP.entryV, fun q hq => heldV_env s _ V _ rfl (hP.held q hq)⟩
   | tick => exact ⟨hP.entryV, fun q hq => heldV_env s _ V _ rfl (hP.held q hq)⟩
 
 theorem run_invP (V : Nat) (Q : Nat → Prop) (s : State) (evs : List Ev) (h : Inv s) (hP : InvP V Q s)
